@@ -108,6 +108,9 @@ func zzxAcceptStep(t *zzT) {
 		zzxDevPick2 = t.Choice("deviation2", len(zzxDevNames))
 	}
 	n := zzxNewNode(t, 2, t.Param("extra", 1), 2) // wall clock is 2 slots ahead of the tip
+	// the step may run inside a sync (Executer.process sets the flag around Syncer.Sync, which hands the
+	// downloaded blocks to processValidated): nothing about the step may depend on it
+	n.ex.syncying = t.Param("syncing", 0) == 1
 	tip := n.chain.LastBlock().Header
 	// payload
 	ntx := t.Range("ntx", 0, 1)
@@ -637,3 +640,14 @@ func zzH_C03_tie_break_step(t *zzT) {
 	zzxRestartCheck(t, n)
 	t.Reach("kept")
 }
+
+// C04.b while the node is syncing: blocks applied by block sync / fast sync / temp-block restore go through
+// the same processValidated with Executer.syncying set; the finalized height is raised and the finalization
+// event emitted exactly as for a gossiped block (chain of 3/4 blocks so that the step raises finality).
+// (seed C04-6 muted the finalization event while syncing.)
+//
+//zz:opt loop=80 lockdiscipline=off require=accepted,finality-raised
+//zz:stub time.Now zzxStubNow
+//zz:quick extra=3 onlydev=0 syncing=1 budget=300s
+//zz:thorough extra=4 onlydev=0 syncing=1 budget=30m
+func zzH_C04_finalized_height_step_syncing(t *zzT) { zzxAcceptStep(t) }
